@@ -522,7 +522,9 @@ func lexInsideAction(l *lexer) stateFn {
 			l.emit(itemUnderscore)
 			return lexInsideAction
 		}
-		fallthrough // no space? must be the start of an identifier
+		// no space? must be the start of an identifier
+		l.pos -= Pos(len("_")) // not backup(): peek() left the width of the rune after '_' in l.width
+		return lexIdentifier
 	case isAlphaNumeric(r):
 		l.backup()
 		return lexIdentifier
